@@ -83,6 +83,8 @@ RULE = ('One case = (a) a generated chart with contracts (conditions are probes;
         'interpreters (ignore_contract False / True) are driven in lock-step and every macro step, configuration, context, '
         'executed code sequence and meta-event stream is compared until the checked side raises a ContractError (the run is '
         'cut there); on the ignoring side the number of condition evaluations must be 0 and no ContractError may be raised. '
+        'Conditions also call after()/idle() and compare sent(name) with what the code sent; a fifth of the runs use a clock that grows at every '
+        'reading; an eager user evaluator; a bound property statechart built by a user factory.  '
         'Non-trivial = distinct runs with >= 10 condition evaluations on the checked side and 0 on the other.')
 ASSUMPTIONS = ['conditions of generated charts are side-effect free apart from the probe counter',
                'shipped charts: elevator_contract.yaml, microwave_with_contracts.yaml']
